@@ -253,6 +253,26 @@ pub fn c08_q_dotted() {
     reach!(t.calls > 0, "reach.drew");
 }
 
+// (dotted rectangles with SYMBOLIC size 0..=7, width 0..=3 and alignment: no verdict in 1200 s - float
+// division and circle scanlines over symbolic dot sizes; the generated grid below lists every size in
+// [0,6]^2 x widths 1..=3 x three alignments instead)
+macro_rules! c08_dotted_g {
+    ($name:ident, $unw:expr, [$((($w:expr, $h:expr), $sw:expr, $al:ident)),+ $(,)?]) => {
+        #[cfg_attr(kani, kani::proof, kani::unwind($unw))]
+        pub fn $name() {
+            let mut t = NProbe::<Gray8>::new(point(4), Rectangle::new(Point::new(-50, -50), Size::new(100, 100)));
+            $( {
+                let st = PrimitiveStyleBuilder::new().stroke_color(Gray8::new(1)).stroke_width($sw).stroke_style(StrokeStyle::Dotted).stroke_alignment(StrokeAlignment::$al).build();
+                let r = Rectangle::new(Point::new(-2, 1), Size::new($w, $h));
+                note!("rectangle", r); note!("style", st);
+                r.into_styled(st).draw(&mut t).unwrap();
+            } )+
+            reach!(t.calls > 0, "reach.drew");
+        }
+    };
+}
+include!("generated/c08_dotted.rs");
+
 #[cfg(embedded_graphics_verif)]
 pub mod kernels {
     use super::*;
